@@ -17,6 +17,17 @@ def clear_proposal_dist_caches():
     # _convolve_two_children.cache_clear()
 
 
+def clear_all_caches():
+    """Empty every process-wide memo table.
+
+    The values memoised by `compute_log_S` and `_convolve_two_children` are computed in the argument order of the
+    first caller (the keys ignore order), so a warm table changes later results in the last bits.
+    """
+    clear_proposal_dist_caches()
+    compute_log_S.cache_clear()
+    _convolve_two_children.cache_clear()
+
+
 def print_cache_info():
     print("\n***********************************************************")
     print(
